@@ -573,9 +573,19 @@ func (o *operation) handle() {
 	if serverRequestBuilder != nil {
 		var hasBody bool
 		var err error
-		o.request.URL.Path, o.request.URL.RawQuery, o.request.Method, hasBody, err =
+		var escapedPath string
+		escapedPath, o.request.URL.RawQuery, o.request.Method, hasBody, err =
 			serverRequestBuilder.requestLine(o, reqMsg.msg)
 		if err != nil {
+			o.reportError(err)
+			return
+		}
+		// The request line builder returns the path in its escaped form. URL.Path
+		// holds the decoded form and URL.RawPath the escaped one, as for a request
+		// parsed by net/http; otherwise a handler that forwards the request would
+		// escape the path a second time.
+		o.request.URL.RawPath = escapedPath
+		if o.request.URL.Path, err = url.PathUnescape(escapedPath); err != nil {
 			o.reportError(err)
 			return
 		}
@@ -588,6 +598,7 @@ func (o *operation) handle() {
 	} else {
 		// if no request line builder, use simple request layout
 		o.request.URL.Path = o.methodConf.methodPath
+		o.request.URL.RawPath = ""
 		o.request.URL.RawQuery = ""
 		o.request.Method = http.MethodPost
 	}
@@ -634,7 +645,10 @@ func (o *operation) resolveMethod(transcoder *Transcoder) error {
 	uriPath := o.request.URL.Path
 	if o.client.protocol.protocol() == ProtocolREST {
 		var methods routeMethods
-		o.restTarget, o.restVars, methods = transcoder.restRoutes.match(uriPath, o.request.Method)
+		// Routes are matched, and variables captured, on the escaped form of the path:
+		// the segments are unescaped exactly once, after the path has been split, so an
+		// escaped slash or percent sign inside a segment stays part of that segment.
+		o.restTarget, o.restVars, methods = transcoder.restRoutes.match(o.request.URL.EscapedPath(), o.request.Method)
 		if o.restTarget != nil {
 			o.methodConf = o.restTarget.config
 			return nil
